@@ -37,6 +37,16 @@ LEMMAS = [
     Lemma('lemma_cfb_public_state', ('C09',), 'CFB: exported value is the last ciphertext block (hyp. D∘E = id)'),
     Lemma('lemma_belt_resume', ('C09',), 'BelT-CTR: init(export(s)) == s'),
     Lemma('lemma_ofb_block_is_stream', ('C14',), 'OFB block step == XOR with the keystream-core step'),
+    Lemma('lemma_cbc_cs_whole_blocks', ('C14', 'C05'), 'CBC-CS1/CS2 on k*b bytes == plain CBC; CS3 == plain CBC with the last two blocks exchanged; one block: plain'),
+    Lemma('lemma_ecb_cs_whole_blocks', ('C14', 'C05'), 'ECB-CS1/CS2 on k*b bytes == raw block encryption; CS3 with the exchange'),
+    Lemma('lemma_cfb_buf_block', ('C14', 'C08'), 'buffered CFB over one whole block from a block boundary == the block-level CFB step (output and next keystream)'),
+    Lemma('lemma_cfb_buf_prefix', ('C14', 'C08'), 'induction behind lemma_cfb_buf_block'),
+    Lemma('chunking_unique', ('C05',), 'a message has exactly one cut into full blocks and a shorter tail'),
+    Lemma('flatg_unique', ('C05',), 'uniqueness of block decomposition'),
+    Lemma('flatg_cbc_dec', ('C05', 'C07'), 'chunk-wise CBC decryption == flat CBC decryption (repo-side parallel chunking)'),
+    Lemma('flatg_rel', ('C05', 'C07'), 'chunk-wise ECB == flat ECB'),
+    Lemma('cbc_c_is_run', ('C05',), 'index form of the CBC chain == run(cbc_enc_step)'),
+    Lemma('cbc_p_is_run', ('C05',), 'index form of CBC decryption == run(cbc_dec_step)'),
     Lemma('lemma_cbc_dec_propagation', ('C15',), 'CBC: same bits flipped in block j+1, re-synchronised after it'),
     Lemma('lemma_cfb_dec_propagation', ('C15',), 'CFB: same bits flipped in block j, re-synchronised after j+1'),
     Lemma('lemma_keystream_flip', ('C15',), 'CTR/OFB/BelT: only the same bit positions flip'),
